@@ -178,7 +178,11 @@ Fin(items, c) ==
 
 RECURSIVE NInput(_, _)
 NInput(fs, c) == IF fs = <<>> THEN NW(c) ELSE FPre(fs[1]) \o NInput(Tail(fs), c) \o FPost(fs[1])
-NExpanded(fs, o, c) == Fin(ER(Build(fs), TopMode(o), FALSE, o), c)
+NRes(fs, o) == ER(Build(fs), TopMode(o), FALSE, o)        \* what expand_recurse hands to _finalize_expand
+NExpanded(fs, o, c) == Fin(NRes(fs, o), c)
+\* is the stored nowiki still there (it is lost with a call of T1 that the library's loop detection rejects)
+RECURSIVE HasN(_)
+HasN(items) == \E i \in 1..Len(items) : items[i].t = "n" /\ (items[i].f = "N" \/ HasN(items[i].kids))
 
 \* Bracket runs that are ambiguous wikitext (which "]]" closes what): a disabled link inside
 \* a link or disabled link, an external link whose "]" runs into the "]]" of a link.  The
@@ -187,9 +191,9 @@ NExpanded(fs, o, c) == Fin(ER(Build(fs), TopMode(o), FALSE, o), c)
 Ambiguous(fs) == \/ \E i, j \in 1..Len(fs) : i < j /\ fs[i] \in {"link", "dl"} /\ fs[j] = "dl"
                  \/ \E i \in 1..(Len(fs) - 1) : fs[i] \in {"link", "dl"} /\ fs[i + 1] = "ext"
 \* must the quoted payload be in the output?  Not where the library's template-loop error
-\* replaces a call of T1 that encloses it (the model says so / more than one T1 around it)
-Demand(fs, o, c) == IF Ambiguous(fs) THEN Cardinality({ i \in 1..Len(fs) : fs[i] = "T1" }) <= 1
-                    ELSE \E i \in 0..(Len(NExpanded(fs, o, c)) - Len(Quote(c))) : SubSeq(NExpanded(fs, o, c), i + 1, i + Len(Quote(c))) = Quote(c)
+\* replaces a call of T1 that encloses it (r = NRes(fs, o), handed in evaluated; where the
+\* model does not predict the frames: not with more than one T1 around the payload)
+Demand(fs, r) == IF Ambiguous(fs) THEN Cardinality({ i \in 1..Len(fs) : fs[i] = "T1" }) <= 1 ELSE HasN(r)
 
 \* the universe: "uc" transforms its argument, so it is only used directly around the nowiki;
 \* options are varied only where some frame of the context looks at them
